@@ -13,6 +13,7 @@
     c05.deletem nt T… nf F… cond              DELETE T… FROM F… WHERE cond
     c05.addcol N pos n (name 0 | name 1 e)*   ALTER TABLE N ADD (…) pos;  pos = first|last|before:c|after:c
     c05.dropcol N n col…   c05.rename N old new   c05.create N n col…
+    c05.createas N n col… src k e_1…e_k cond   CREATE TABLE N (cols) AS SELECT e… FROM src WHERE cond
     c05.commit                                                           → ok m=
     c05.committed N                           the committed table as text → dump of texts
     c05.dump N                                                           → dump
@@ -273,10 +274,10 @@ def showMarks (m : List String) : String := "m=" ++ String.intercalate "," (sort
 def showResult (s : State) (r : Result) (targets : List String) : String :=
   let dumps := String.intercalate " " ((sortStrs targets).map (dumpOf s.tables))
   match r with
-  | .error e => s!"E{e.code} {showMarks s.marks} {dumps}"
+  | .error e => (s!"E{e.code} {showMarks s.marks} {dumps}").trimRight
   | .ok counts =>
     let cs := sortStrs (counts.map fun c => s!"{c.1}:{c.2}")
-    s!"ok {String.intercalate "," cs} {showMarks s.marks} {dumps}"
+    (s!"ok {String.intercalate "," cs} {showMarks s.marks} {dumps}").trimRight
 
 /-- REPLACE's key equivalence: SortValues.EquivalentTo on NewSortValue of the cells -/
 def keqSort (a b : List Cell) : Bool :=
@@ -440,7 +441,30 @@ def step (s : State) (cmd : String) (args : List String) : State × String :=
   | "rename", [n, o, nw] => runStmt s (.rename n o nw) [n]
   | "create", n :: rest =>
     match takeN rest with
-    | some (cols, []) => runStmt s (.create n cols) [n]
+    | some (cols, []) => runStmt s (.create n cols none) []
+    | _ => bad
+  | "createas", n :: rest =>
+    -- CREATE TABLE n (cols) AS SELECT e… FROM src WHERE cond
+    match takeN rest with
+    | some (cols, src :: k :: r2) =>
+      match k.toNat? with
+      | none => bad
+      | some k =>
+        match parseExs k r2 with
+        | none => bad
+        | some (es, r3) =>
+          match pEx r3 with
+          | some (cond, []) =>
+            let srcFn : Tables → List (Except Err Row) := fun ts =>
+              match lookupT ts src with
+              | none => [.error .noTable]
+              | some t =>
+                match filterView (fun (r : Row) => evalCond [(src, t.header, r)] cond) (withIdsFrom t.rows 0) with
+                | .error e => [.error e]
+                | .ok view => view.map fun x => evalRow [(src, t.header, x.2)] es
+            let r := stmtImpl s (.create n cols (some (k, srcFn)))
+            (r.1, showResult r.1 r.2 (match r.2 with | .ok _ => [n] | .error _ => []))
+          | _ => bad
     | _ => bad
   | _, _ => bad
 
